@@ -4,6 +4,8 @@ Helper lemmas for property C07 (ow-sim = sequential reference semantics): row ra
 the specification's fixed-point equation, and the invariant of the implementation-shaped semantics under an arbitrary
 protocol-respecting schedule. Core Lean only.
 -/
+set_option linter.unusedSectionVars false
+
 namespace OW.Sim
 variable {α : Type}
 
@@ -73,5 +75,1116 @@ theorem inGen_inj {b : List Nat} (hm : MonoBatches b) {g1 g2 r : Nat} (h1 : g1 <
   · exact (inGen_unique hm h2 h a c).elim
   · exact h
   · exact (inGen_unique hm h1 h c a).elim
+
+end OW.Sim
+
+namespace OW.Sim
+variable {α : Type} [Num α]
+
+/-! ### the specification satisfies the node equations (fixed point) -/
+
+theorem range_foldl_succ {β : Type} (f : β → Nat → β) (a : β) (n : Nat) :
+    (List.range (n + 1)).foldl f a = f ((List.range n).foldl f a) n := by
+  rw [List.range_succ, List.foldl_append]; rfl
+
+/-- one link folded into the input of node (m, r) -/
+def stepIn (D : Done α) (m r : Nat) (ins : List (List α)) (l : Link) : List (List α) :=
+  if l.destModel = m ∧ l.destNode = r then addAt ins l.destVar (linkSeries D l) else ins
+
+/-- the input of node (m, r) after the links `ls` -/
+def partialInput (g : Graph α) (D : Done α) (ls : List Link) (m r : Nat) : List (List α) :=
+  ls.foldl (stepIn D m r) (baseInputs g (g.model m) r)
+
+theorem nodeInput_eq (g : Graph α) (D : Done α) (m r : Nat) : nodeInput g D m r = partialInput g D g.links m r := rfl
+
+theorem foldl_stepIn_congr (D1 D2 : Done α) (m r : Nat) :
+    ∀ (ls : List Link) (init : List (List α)),
+      (∀ l ∈ ls, l.destModel = m → l.destNode = r → D1 l.srcModel l.srcNode = D2 l.srcModel l.srcNode) →
+      ls.foldl (stepIn D1 m r) init = ls.foldl (stepIn D2 m r) init := by
+  intro ls
+  induction ls with
+  | nil => intro init _; rfl
+  | cons l rest ih =>
+    intro init h
+    simp only [List.foldl_cons]
+    have e : stepIn D1 m r init l = stepIn D2 m r init l := by
+      unfold stepIn
+      split
+      · rename_i hc
+        have := h l (List.mem_cons_self) hc.1 hc.2
+        simp [linkSeries, this]
+      · rfl
+    rw [e]
+    exact ih _ (fun l' hl' => h l' (List.mem_cons_of_mem _ hl'))
+
+theorem foldl_stepIn_skip (D : Done α) (m r : Nat) :
+    ∀ (ls : List Link) (init : List (List α)), (∀ l ∈ ls, ¬ (l.destModel = m ∧ l.destNode = r)) →
+      ls.foldl (stepIn D m r) init = init := by
+  intro ls
+  induction ls with
+  | nil => intro init _; rfl
+  | cons l rest ih =>
+    intro init h
+    simp only [List.foldl_cons]
+    have : stepIn D m r init l = init := by
+      unfold stepIn; simp [h l List.mem_cons_self]
+    rw [this]
+    exact ih _ (fun l' hl' => h l' (List.mem_cons_of_mem _ hl'))
+
+theorem runNodeAt_congr (run : RunFn α) (g : Graph α) (D1 D2 : Done α) (m r : Nat)
+    (h : ∀ l ∈ g.links, l.destModel = m → l.destNode = r → D1 l.srcModel l.srcNode = D2 l.srcModel l.srcNode) :
+    runNodeAt run g D1 m r = runNodeAt run g D2 m r := by
+  unfold runNodeAt
+  have : nodeInput g D1 m r = nodeInput g D2 m r := by
+    rw [nodeInput_eq, nodeInput_eq]
+    exact foldl_stepIn_congr D1 D2 m r g.links _ h
+  simp [this]
+
+theorem refDone_succ (run : RunFn α) (g : Graph α) (n : Nat) :
+    refDone run g (n + 1) = refGen run g (refDone run g n) n := by
+  unfold refDone; exact range_foldl_succ _ _ _
+
+theorem not_inGen_of_other {b : List Nat} (hm : MonoBatches b) {g1 g2 r : Nat} (h1 : g1 < b.length)
+    (a : inGen b g1 r) (hne : g1 ≠ g2) : ¬ inGen b g2 r := by
+  intro c
+  by_cases h2 : g2 < b.length
+  · exact hne (inGen_inj hm h1 h2 a c)
+  · have : stopOf b g2 = 0 := by
+      unfold stopOf
+      simp [List.getD, List.getElem?_eq_none (Nat.le_of_not_lt h2)]
+    have := c.2
+    omega
+
+/-- once a node's generation has run, its result never changes -/
+theorem refDone_stable (run : RunFn α) (g : Graph α) {m r g' : Nat}
+    (hmono : MonoBatches (g.model m).batches) (hg' : g' < (g.model m).batches.length)
+    (hin : inGen (g.model m).batches g' r) :
+    ∀ n, g' < n → refDone run g n m r = runNodeAt run g (refDone run g g') m r := by
+  intro n
+  induction n with
+  | zero => intro h; omega
+  | succ n ih =>
+    intro h
+    rw [refDone_succ]
+    unfold refGen
+    by_cases e : g' = n
+    · subst e; simp [hin]
+    · have : ¬ inGen (g.model m).batches n r := not_inGen_of_other hmono hg' hin e
+      simp only [this, if_false]
+      exact ih (by omega)
+
+end OW.Sim
+
+namespace OW.Sim
+variable {α : Type} [Num α]
+
+/-! ### reading `ValidGraph` -/
+
+theorem ValidGraph.genPos {g : Graph α} (hv : ValidGraph g) : 1 ≤ g.genCount := hv.1
+theorem ValidGraph.len {g : Graph α} (hv : ValidGraph g) {m : Nat} (hm : m < g.models.length) :
+    (g.model m).batches.length = g.genCount := (hv.2.1 m hm).1
+theorem ValidGraph.mono {g : Graph α} (hv : ValidGraph g) {m : Nat} (hm : m < g.models.length) :
+    MonoBatches (g.model m).batches := (hv.2.1 m hm).2
+theorem ValidGraph.sorted {g : Graph α} (hv : ValidGraph g) : SortedLinks g.links := hv.2.2.1
+theorem ValidGraph.link {g : Graph α} (hv : ValidGraph g) {l : Link} (hl : l ∈ g.links) : LinkOk g l := hv.2.2.2 l hl
+
+/-- number of nodes of model `m` in generation `gen` -/
+def countOf (g : Graph α) (m gen : Nat) : Nat := stopOf (g.model m).batches gen - startOf (g.model m).batches gen
+
+/-- global row of node `k` of generation `gen` of model `m` -/
+def rowOf (g : Graph α) (m gen k : Nat) : Nat := startOf (g.model m).batches gen + k
+
+theorem inGen_rowOf {g : Graph α} {m gen k : Nat} (hk : k < countOf g m gen) :
+    inGen (g.model m).batches gen (rowOf g m gen k) := by
+  unfold countOf at hk; unfold inGen rowOf; omega
+
+theorem gen_lt_of_count {g : Graph α} {m gen : Nat} (h : 0 < countOf g m gen) : gen < (g.model m).batches.length := by
+  apply Classical.byContradiction
+  intro hn
+  have : stopOf (g.model m).batches gen = 0 := by
+    unfold stopOf
+    simp [List.getD, List.getElem?_eq_none (Nat.le_of_not_lt hn)]
+  unfold countOf at h
+  omega
+
+theorem LinkOk.src_in {g : Graph α} {l : Link} (h : LinkOk g l) :
+    l.srcNode = rowOf g l.srcModel l.srcGen l.srcGenNode ∧ l.srcGenNode < countOf g l.srcModel l.srcGen := by
+  obtain ⟨_, _, _, _, h5, _, h7, _, _⟩ := h
+  exact ⟨h7, h5⟩
+
+theorem LinkOk.dest_in {g : Graph α} {l : Link} (h : LinkOk g l) :
+    l.destNode = rowOf g l.destModel l.destGen l.destGenNode ∧ l.destGenNode < countOf g l.destModel l.destGen := by
+  obtain ⟨_, _, _, _, _, h6, _, h8, _⟩ := h
+  exact ⟨h8, h6⟩
+
+/-- a link into node `rowOf m gen k` has destination generation `gen` -/
+theorem link_dest_gen {g : Graph α} (hv : ValidGraph g) {l : Link} (hl : l ∈ g.links) {m gen k : Nat}
+    (hk : k < countOf g m gen) (hdm : l.destModel = m) (hdn : l.destNode = rowOf g m gen k) :
+    l.destGen = gen ∧ l.destGenNode = k := by
+  have ok := hv.link hl
+  obtain ⟨e1, e2⟩ := ok.dest_in
+  have hml : l.destModel < g.models.length := ok.2.2.2.1
+  rw [hdm] at e1 e2 hml
+  have i1 := inGen_rowOf e2
+  have i2 := inGen_rowOf hk
+  rw [← e1, hdn] at i1
+  have hg : l.destGen = gen :=
+    inGen_inj (hv.mono hml) (gen_lt_of_count (by omega)) (gen_lt_of_count (by omega)) i1 i2
+  refine ⟨hg, ?_⟩
+  rw [hg] at e1
+  rw [hdn] at e1
+  unfold rowOf at e1
+  omega
+
+/-- **the reference result satisfies the node equations**: every node's entry is the result of running it on the
+inputs computed from the final results -/
+theorem ref_fixed (run : RunFn α) (g : Graph α) (hv : ValidGraph g) {m gen k : Nat} (hm : m < g.models.length)
+    (hk : k < countOf g m gen) :
+    refDone run g g.genCount m (rowOf g m gen k) =
+      runNodeAt run g (refDone run g g.genCount) m (rowOf g m gen k) := by
+  have hgen : gen < (g.model m).batches.length := gen_lt_of_count (by omega)
+  have hgenG : gen < g.genCount := by rw [← hv.len hm]; exact hgen
+  rw [refDone_stable run g (hv.mono hm) hgen (inGen_rowOf hk) g.genCount hgenG]
+  apply runNodeAt_congr
+  intro l hl hdm hdn
+  have ok := hv.link hl
+  obtain ⟨hg, _⟩ := link_dest_gen hv hl hk hdm hdn
+  obtain ⟨e1, e2⟩ := ok.src_in
+  have hsm : l.srcModel < g.models.length := ok.2.2.1
+  have hlt : l.srcGen < gen := by have := ok.1; omega
+  have hsg : l.srcGen < (g.model l.srcModel).batches.length := gen_lt_of_count (by omega)
+  rw [e1]
+  rw [refDone_stable run g (hv.mono hsm) hsg (inGen_rowOf e2) gen hlt]
+  rw [refDone_stable run g (hv.mono hsm) hsg (inGen_rowOf e2) g.genCount (by omega)]
+
+end OW.Sim
+
+namespace OW.Sim
+variable {α : Type} [Num α]
+
+/-! ### the implementation-shaped semantics: lazily loaded generations -/
+
+/-- the generation object the code works on: the cached one, or what `GetGeneration` would load -/
+def effGen (g : Graph α) (s : SimState α) (m gen : Nat) : GenData α :=
+  match s.gens m gen with
+  | some d => d
+  | none => loadGeneration g m gen
+
+/-- the state after `GetGeneration(m, gen)` -/
+def ensure (g : Graph α) (s : SimState α) (m gen : Nat) : SimState α :=
+  match s.gens m gen with
+  | some _ => s
+  | none => { s with gens := upd2 s.gens m gen (some (loadGeneration g m gen)) }
+
+theorem getGeneration_eq (g : Graph α) (s : SimState α) (m gen : Nat) :
+    getGeneration g s m gen = (ensure g s m gen, effGen g s m gen) := by
+  unfold getGeneration ensure effGen
+  cases h : s.gens m gen <;> simp
+
+theorem ensure_nextLink (g : Graph α) (s : SimState α) (m gen : Nat) : (ensure g s m gen).nextLink = s.nextLink := by
+  unfold ensure; cases h : s.gens m gen <;> simp
+theorem ensure_file (g : Graph α) (s : SimState α) (m gen : Nat) : (ensure g s m gen).file = s.file := by
+  unfold ensure; cases h : s.gens m gen <;> simp
+theorem ensure_initialised (g : Graph α) (s : SimState α) (m gen : Nat) :
+    (ensure g s m gen).initialised = s.initialised := by
+  unfold ensure; cases h : s.gens m gen <;> simp
+
+theorem ensure_gens_self (g : Graph α) (s : SimState α) (m gen : Nat) :
+    (ensure g s m gen).gens m gen = some (effGen g s m gen) := by
+  unfold ensure effGen
+  cases h : s.gens m gen <;> simp [h, upd2]
+
+theorem ensure_gens_other (g : Graph α) (s : SimState α) {m gen m2 g2 : Nat} (hne : ¬ (m2 = m ∧ g2 = gen)) :
+    (ensure g s m gen).gens m2 g2 = s.gens m2 g2 := by
+  unfold ensure
+  cases h : s.gens m gen <;> simp [upd2, hne]
+
+theorem ensure_gens_some (g : Graph α) (s : SimState α) {m gen m2 g2 : Nat} {d : GenData α}
+    (h : s.gens m2 g2 = some d) : (ensure g s m gen).gens m2 g2 = some d := by
+  by_cases e : m2 = m ∧ g2 = gen
+  · obtain ⟨e1, e2⟩ := e; subst e1; subst e2
+    rw [ensure_gens_self]; simp [effGen, h]
+  · rw [ensure_gens_other g s e]; exact h
+
+theorem effGen_ensure (g : Graph α) (s : SimState α) (m gen m2 g2 : Nat) :
+    effGen g (ensure g s m gen) m2 g2 = effGen g s m2 g2 := by
+  by_cases e : m2 = m ∧ g2 = gen
+  · obtain ⟨e1, e2⟩ := e; subst e1; subst e2
+    unfold effGen
+    rw [ensure_gens_self]
+    cases h : s.gens m2 g2 <;> simp [effGen, h]
+  · unfold effGen; rw [ensure_gens_other g s e]
+
+theorem effGen_of_some {g : Graph α} {s : SimState α} {m gen : Nat} {d : GenData α} (h : s.gens m gen = some d) :
+    effGen g s m gen = d := by simp [effGen, h]
+
+/-! ### schedules -/
+
+/-- how far a schedule has progressed -/
+structure Prog where
+  /-- generations `< ran` have run -/
+  ran : Nat
+  /-- the outgoing links of generations `< linked` have been applied -/
+  linked : Nat
+  written : Nat → Bool
+  purged : Nat → Bool
+
+def Prog.init : Prog := ⟨0, 0, fun _ => false, fun _ => false⟩
+
+/-- what the writer protocol guarantees about the order of actions (C07-T2): the main loop runs generation `i` after
+the links of generation `i-1`; a generation is written after it has run and before it is purged, and only once; it is
+purged only after it is written and its outgoing links are applied -/
+def progStep (G : Nat) (p : Prog) : Act → Option Prog
+  | .run i => if i = p.ran ∧ p.linked = i ∧ i < G then some { p with ran := i + 1 } else none
+  | .links i => if i + 1 = p.ran ∧ p.linked = i then some { p with linked := i + 1 } else none
+  | .write k =>
+    if k < p.ran ∧ p.written k = false ∧ p.purged k = false then some { p with written := upd p.written k true } else none
+  | .purge k => if p.written k = true ∧ k < p.linked then some { p with purged := upd p.purged k true } else none
+
+def progRun (G : Nat) : Prog → List Act → Option Prog
+  | p, [] => some p
+  | p, a :: rest => match progStep G p a with
+    | some p' => progRun G p' rest
+    | none => none
+
+/-- a schedule that respects the protocol and is complete: every generation run, linked and written -/
+def SafeComplete (G : Nat) (acts : List Act) : Prop :=
+  ∃ p, progRun G Prog.init acts = some p ∧ p.ran = G ∧ p.linked = G ∧ ∀ k, k < G → p.written k = true
+
+structure PInv (G : Nat) (p : Prog) : Prop where
+  ranG : p.ran ≤ G
+  lr : p.linked ≤ p.ran
+  rl : p.ran ≤ p.linked + 1
+  wr : ∀ k, p.written k = true → k < p.ran
+  pw : ∀ k, p.purged k = true → p.written k = true ∧ k < p.linked
+
+theorem pinv_init (G : Nat) : PInv G Prog.init :=
+  ⟨Nat.zero_le _, Nat.le_refl _, Nat.zero_le _, fun k h => by simp [Prog.init] at h, fun k h => by simp [Prog.init] at h⟩
+
+theorem pinv_step {G : Nat} {p p' : Prog} {a : Act} (hp : PInv G p) (h : progStep G p a = some p') : PInv G p' := by
+  cases a with
+  | run i =>
+    simp only [progStep] at h
+    split at h
+    · rename_i hc; cases h
+      obtain ⟨h1, h2, h3⟩ := hc
+      refine ⟨?_, ?_, ?_, ?_, hp.pw⟩
+      · show i + 1 ≤ G; omega
+      · show p.linked ≤ i + 1; omega
+      · show i + 1 ≤ p.linked + 1; omega
+      · intro k hk; have := hp.wr k hk; show k < i + 1; omega
+    · cases h
+  | links i =>
+    simp only [progStep] at h
+    split at h
+    · rename_i hc; cases h
+      obtain ⟨h1, h2⟩ := hc
+      refine ⟨hp.ranG, ?_, ?_, hp.wr, ?_⟩
+      · show i + 1 ≤ p.ran; omega
+      · show p.ran ≤ i + 1 + 1; omega
+      · intro k hk; have := hp.pw k hk; exact ⟨this.1, by show k < i + 1; omega⟩
+    · cases h
+  | write k =>
+    simp only [progStep] at h
+    split at h
+    · rename_i hc; cases h
+      obtain ⟨h1, h2, h3⟩ := hc
+      refine ⟨hp.ranG, hp.lr, hp.rl, ?_, ?_⟩
+      · intro k' hk'
+        by_cases e : k' = k
+        · subst e; exact h1
+        · apply hp.wr k'; simpa [upd, e] using hk'
+      · intro k' hk'
+        have := hp.pw k' hk'
+        refine ⟨?_, this.2⟩
+        show upd p.written k true k' = true
+        by_cases e : k' = k
+        · simp [upd, e]
+        · simp [upd, e, this.1]
+    · cases h
+  | purge k =>
+    simp only [progStep] at h
+    split at h
+    · rename_i hc; cases h
+      obtain ⟨h1, h2⟩ := hc
+      refine ⟨hp.ranG, hp.lr, hp.rl, hp.wr, ?_⟩
+      intro k' hk'
+      by_cases e : k' = k
+      · subst e; exact ⟨h1, h2⟩
+      · apply hp.pw k'; simpa [upd, e] using hk'
+    · cases h
+
+end OW.Sim
+
+namespace OW.Sim
+variable {α : Type} [Num α]
+
+/-! ### the invariant of the implementation-shaped semantics along a protocol-respecting schedule -/
+
+/-- a generation that has run holds the reference results of its nodes -/
+structure FinalData (g : Graph α) (D : Done α) (m gen : Nat) (d : GenData α) : Prop where
+  count : d.count = countOf g m gen
+  ran : 0 < countOf g m gen → d.ran = true
+  vals : ∀ k, k < countOf g m gen →
+    d.inputs k = (D m (rowOf g m gen k)).inputs ∧ d.outputs k = (D m (rowOf g m gen k)).res.outputs ∧
+    d.states k = (D m (rowOf g m gen k)).res.states ∧ d.errs k = (D m (rowOf g m gen k)).res.err
+
+/-- a generation that has not run yet holds the stored inputs plus the links applied so far (`pre`) -/
+structure PendingData (g : Graph α) (D : Done α) (pre : List Link) (m gen : Nat) (d : GenData α) : Prop where
+  count : d.count = countOf g m gen
+  vals : ∀ k, k < countOf g m gen →
+    d.inputs k = partialInput g D pre m (rowOf g m gen k) ∧
+    d.states k = (g.model m).states.getD (rowOf g m gen k) [] ∧
+    d.params k = (g.model m).params.getD (rowOf g m gen k) []
+
+def rowOut (g : Graph α) (D : Done α) (m r : Nat) : Row α := mkRow g (g.model m) (D m r).inputs (D m r).res
+
+structure DInv (g : Graph α) (D : Done α) (p : Prog) (pre : List Link) (s : SimState α) : Prop where
+  cursor : s.nextLink = pre.length
+  fin : ∀ m gen, m < g.models.length → gen < p.ran → p.purged gen = false →
+    ∃ d, s.gens m gen = some d ∧ FinalData g D m gen d
+  pend : ∀ m gen, m < g.models.length → p.ran ≤ gen → PendingData g D pre m gen (effGen g s m gen)
+  file : ∀ m gen k, m < g.models.length → k < countOf g m gen →
+    s.file m (rowOf g m gen k) = if p.written gen = true then some (rowOut g D m (rowOf g m gen k)) else none
+  init : ∀ m, m < g.models.length → (s.initialised m = true ↔ ∃ gen, p.written gen = true ∧ 0 < countOf g m gen)
+
+theorem loadGeneration_pending (g : Graph α) (D : Done α) (m gen : Nat) :
+    PendingData g D [] m gen (loadGeneration g m gen) := by
+  constructor
+  · unfold loadGeneration countOf
+    simp only []
+    split <;> simp_all
+  · intro k hk
+    have hne : ¬ (stopOf (g.model m).batches gen - startOf (g.model m).batches gen = 0) := by
+      unfold countOf at hk; omega
+    unfold loadGeneration
+    simp only [hne, if_false]
+    exact ⟨rfl, rfl, rfl⟩
+
+theorem dinv_init (g : Graph α) (D : Done α) : DInv g D Prog.init [] initState := by
+  refine ⟨rfl, ?_, ?_, ?_, ?_⟩
+  · intro m gen _ h; simp [Prog.init] at h
+  · intro m gen _ _
+    have : effGen g (initState : SimState α) m gen = loadGeneration g m gen := by simp [effGen, initState]
+    rw [this]; exact loadGeneration_pending g D m gen
+  · intro m gen k _ _; simp [initState, Prog.init]
+  · intro m _; simp [initState, Prog.init]
+
+theorem partialInput_snoc (g : Graph α) (D : Done α) (pre : List Link) (l : Link) (m r : Nat) :
+    partialInput g D (pre ++ [l]) m r = stepIn D m r (partialInput g D pre m r) l := by
+  unfold partialInput; rw [List.foldl_append]; rfl
+
+/-- the destination generation after one link -/
+def withLink (dst : GenData α) (l : Link) (srcData : List α) : GenData α :=
+  { dst with inputs := upd dst.inputs l.destGenNode (addAt (dst.inputs l.destGenNode) l.destVar srcData) }
+
+theorem applyLink_eq (g : Graph α) (s : SimState α) (l : Link) :
+    applyLink g s l =
+      { ensure g (ensure g s l.srcModel l.srcGen) l.destModel l.destGen with
+        gens := upd2 (ensure g (ensure g s l.srcModel l.srcGen) l.destModel l.destGen).gens l.destModel l.destGen
+          (some (withLink (effGen g s l.destModel l.destGen) l
+            (((effGen g s l.srcModel l.srcGen).outputs l.srcGenNode).getD l.srcVar [])))
+        nextLink := (ensure g (ensure g s l.srcModel l.srcGen) l.destModel l.destGen).nextLink + 1 } := by
+  unfold applyLink withLink
+  simp only [getGeneration_eq, effGen_ensure]
+
+end OW.Sim
+
+namespace OW.Sim
+variable {α : Type} [Num α]
+
+/-- one link of the generation whose links are being processed preserves the invariant (the cursor advances) -/
+theorem dinv_applyLink {g : Graph α} (hv : ValidGraph g) {D : Done α} {p : Prog} {pre post : List Link} {l : Link}
+    {s : SimState α} (hsplit : g.links = pre ++ l :: post) (hp : PInv g.genCount p) (hI : DInv g D p pre s)
+    (hs : l.srcGen + 1 = p.ran) (hlk : p.linked = l.srcGen) :
+    DInv g D p (pre ++ [l]) (applyLink g s l) := by
+  have hl : l ∈ g.links := by rw [hsplit]; simp
+  have ok := hv.link hl
+  obtain ⟨se1, se2⟩ := ok.src_in
+  obtain ⟨de1, de2⟩ := ok.dest_in
+  have hsm : l.srcModel < g.models.length := ok.2.2.1
+  have hdm : l.destModel < g.models.length := ok.2.2.2.1
+  have hlt : l.srcGen < l.destGen := ok.1
+  have hnp : p.purged l.srcGen = false := by
+    cases h : p.purged l.srcGen with
+    | false => rfl
+    | true => have := (hp.pw _ h).2; omega
+  obtain ⟨dsrc, hsrc, fsrc⟩ := hI.fin l.srcModel l.srcGen hsm (by omega) hnp
+  have hsrcData : ((effGen g s l.srcModel l.srcGen).outputs l.srcGenNode).getD l.srcVar [] = linkSeries D l := by
+    rw [effGen_of_some hsrc, (fsrc.vals _ se2).2.1]; unfold linkSeries; rw [se1]
+  rw [applyLink_eq, hsrcData]
+  refine ⟨?_, ?_, ?_, ?_, ?_⟩
+  · show (ensure g (ensure g s l.srcModel l.srcGen) l.destModel l.destGen).nextLink + 1 = (pre ++ [l]).length
+    rw [ensure_nextLink, ensure_nextLink, hI.cursor]; simp
+  · intro m gen hm hgen hnpg
+    obtain ⟨d, hd, fd⟩ := hI.fin m gen hm hgen hnpg
+    refine ⟨d, ?_, fd⟩
+    show upd2 _ l.destModel l.destGen _ m gen = some d
+    have : ¬ (m = l.destModel ∧ gen = l.destGen) := by omega
+    simp only [upd2, this, if_false]
+    exact ensure_gens_some _ _ (ensure_gens_some _ _ hd)
+  · intro m gen hm hgen
+    by_cases e : m = l.destModel ∧ gen = l.destGen
+    · obtain ⟨e1, e2⟩ := e; subst e1; subst e2
+      have hnew : effGen g
+          { ensure g (ensure g s l.srcModel l.srcGen) l.destModel l.destGen with
+            gens := upd2 (ensure g (ensure g s l.srcModel l.srcGen) l.destModel l.destGen).gens l.destModel l.destGen
+              (some (withLink (effGen g s l.destModel l.destGen) l (linkSeries D l)))
+            nextLink := (ensure g (ensure g s l.srcModel l.srcGen) l.destModel l.destGen).nextLink + 1 }
+          l.destModel l.destGen = withLink (effGen g s l.destModel l.destGen) l (linkSeries D l) := by
+        apply effGen_of_some; simp [upd2]
+      rw [hnew]
+      have old := hI.pend l.destModel l.destGen hdm hgen
+      constructor
+      · exact old.count
+      · intro k hk
+        obtain ⟨o1, o2, o3⟩ := old.vals k hk
+        refine ⟨?_, o2, o3⟩
+        show upd (effGen g s l.destModel l.destGen).inputs l.destGenNode
+            (addAt ((effGen g s l.destModel l.destGen).inputs l.destGenNode) l.destVar (linkSeries D l)) k = _
+        rw [partialInput_snoc]
+        unfold stepIn
+        by_cases ek : k = l.destGenNode
+        · subst ek
+          simp only [upd, if_true, de1, and_self]
+          rw [o1]
+        · have hc : ¬ (l.destNode = rowOf g l.destModel l.destGen k) := by
+            rw [de1]; unfold rowOf; omega
+          simp only [upd, ek, if_false, hc, and_false]
+          exact o1
+    · have hnew : effGen g
+          { ensure g (ensure g s l.srcModel l.srcGen) l.destModel l.destGen with
+            gens := upd2 (ensure g (ensure g s l.srcModel l.srcGen) l.destModel l.destGen).gens l.destModel l.destGen
+              (some (withLink (effGen g s l.destModel l.destGen) l (linkSeries D l)))
+            nextLink := (ensure g (ensure g s l.srcModel l.srcGen) l.destModel l.destGen).nextLink + 1 }
+          m gen = effGen g s m gen := by
+        rw [← effGen_ensure g s l.srcModel l.srcGen m gen,
+          ← effGen_ensure g (ensure g s l.srcModel l.srcGen) l.destModel l.destGen m gen]
+        unfold effGen
+        simp only [upd2, e, if_false]
+      rw [hnew]
+      have old := hI.pend m gen hm hgen
+      constructor
+      · exact old.count
+      · intro k hk
+        obtain ⟨o1, o2, o3⟩ := old.vals k hk
+        refine ⟨?_, o2, o3⟩
+        rw [partialInput_snoc, o1]
+        unfold stepIn
+        have hc : ¬ (l.destModel = m ∧ l.destNode = rowOf g m gen k) := by
+          intro hc
+          obtain ⟨a, _⟩ := link_dest_gen hv hl hk hc.1 hc.2
+          exact e ⟨hc.1.symm, a.symm⟩
+        simp only [hc, if_false]
+  · intro m gen k hm hk
+    show (ensure g (ensure g s l.srcModel l.srcGen) l.destModel l.destGen).file m (rowOf g m gen k) = _
+    rw [ensure_file, ensure_file]; exact hI.file m gen k hm hk
+  · intro m hm
+    show (ensure g (ensure g s l.srcModel l.srcGen) l.destModel l.destGen).initialised m = true ↔ _
+    rw [ensure_initialised, ensure_initialised]; exact hI.init m hm
+
+end OW.Sim
+
+namespace OW.Sim
+variable {α : Type} [Num α]
+
+theorem sorted_tail {l : Link} {rest : List Link} (h : SortedLinks (l :: rest)) : SortedLinks rest := h.2
+
+theorem sorted_append_right : ∀ (pre post : List Link), SortedLinks (pre ++ post) → SortedLinks post
+  | [], _, h => h
+  | _ :: pre, post, h => sorted_append_right pre post h.2
+
+theorem drop_length_append {β : Type} : ∀ (a b : List β), (a ++ b).drop a.length = b
+  | [], _ => rfl
+  | _ :: a, b => by simp
+
+/-- the PROCESS LINKS loop of generation `i`: consumes exactly the links whose source generation is `i` -/
+theorem dinv_processLinksFrom {g : Graph α} (hv : ValidGraph g) {D : Done α} {p : Prog} (hp : PInv g.genCount p)
+    {i : Nat} (hi : i + 1 = p.ran) (hlk : p.linked = i) :
+    ∀ (post pre : List Link) (s : SimState α), g.links = pre ++ post → DInv g D p pre s →
+      (∀ l ∈ pre, l.srcGen < i + 1) → (∀ l ∈ post, i ≤ l.srcGen) → SortedLinks post →
+      ∃ pre' post', g.links = pre' ++ post' ∧ DInv g D p pre' (processLinksFrom g i post s) ∧
+        (∀ l ∈ pre', l.srcGen < i + 1) ∧ (∀ l ∈ post', i + 1 ≤ l.srcGen) := by
+  intro post
+  induction post with
+  | nil =>
+    intro pre s hsplit hI hpre _ _
+    exact ⟨pre, [], hsplit, hI, hpre, fun l hl => by cases hl⟩
+  | cons l rest ih =>
+    intro pre s hsplit hI hpre hpost hsorted
+    unfold processLinksFrom
+    by_cases hgt : l.srcGen > i
+    · simp only [hgt, if_true]
+      refine ⟨pre, l :: rest, hsplit, hI, hpre, ?_⟩
+      intro l' hl'
+      rcases List.mem_cons.mp hl' with e | e
+      · subst e; omega
+      · have := hsorted.1 l' e; omega
+    · simp only [hgt, if_false]
+      have hli : l.srcGen = i := by have := hpost l List.mem_cons_self; omega
+      have hI' := dinv_applyLink hv hsplit hp hI (by omega) (by omega)
+      have hsplit' : g.links = (pre ++ [l]) ++ rest := by rw [hsplit]; simp
+      refine ih (pre ++ [l]) (applyLink g s l) hsplit' hI' ?_ ?_ hsorted.2
+      · intro l' hl'
+        rcases List.mem_append.mp hl' with e | e
+        · exact hpre l' e
+        · have : l' = l := by simpa using e
+          subst this; omega
+      · intro l' hl'; exact hpost l' (List.mem_cons_of_mem _ hl')
+
+end OW.Sim
+
+namespace OW.Sim
+variable {α : Type} [Num α]
+
+/-! ### `runGeneration` -/
+
+/-- generation `i` of model `m` after `runGeneration(i)` -/
+def ranGen (run : RunFn α) (g : Graph α) (s : SimState α) (m i : Nat) : GenData α :=
+  if (effGen g s m i).count = 0 then effGen g s m i else runGenData run (g.model m).name (effGen g s m i)
+
+theorem upd2_upd2 {β : Type} (f : Nat → Nat → β) (i j : Nat) (a b : β) : upd2 (upd2 f i j a) i j b = upd2 f i j b := by
+  funext x y; unfold upd2; split <;> rfl
+
+theorem ensure_eq (g : Graph α) (s : SimState α) (m gen : Nat) :
+    ensure g s m gen = { s with gens := upd2 s.gens m gen (some (effGen g s m gen)) } := by
+  unfold ensure effGen
+  cases h : s.gens m gen with
+  | none => rfl
+  | some d =>
+    simp only []
+    cases s with
+    | mk gens nl ini file =>
+      simp only [SimState.mk.injEq, and_true]
+      funext x y
+      unfold upd2
+      split
+      · rename_i hc; obtain ⟨e1, e2⟩ := hc; subst e1; subst e2; exact h
+      · rfl
+
+theorem runModelGen_eq (run : RunFn α) (g : Graph α) (i : Nat) (s : SimState α) (m : Nat) :
+    runModelGen run g i s m = { s with gens := upd2 s.gens m i (some (ranGen run g s m i)) } := by
+  unfold runModelGen ranGen
+  simp only [getGeneration_eq]
+  by_cases hc : (effGen g s m i).count = 0
+  · rw [if_pos hc, if_pos hc]; exact ensure_eq g s m i
+  · rw [if_neg hc, if_neg hc]
+    rw [ensure_eq]; simp only [upd2_upd2]
+
+theorem effGen_congr (g : Graph α) {s s' : SimState α} {m gen : Nat} (h : s'.gens m gen = s.gens m gen) :
+    effGen g s' m gen = effGen g s m gen := by unfold effGen; rw [h]
+
+theorem runGeneration_spec (run : RunFn α) (g : Graph α) (i : Nat) (s0 : SimState α) :
+    ∀ n, ((List.range n).foldl (runModelGen run g i) s0).nextLink = s0.nextLink ∧
+      ((List.range n).foldl (runModelGen run g i) s0).file = s0.file ∧
+      ((List.range n).foldl (runModelGen run g i) s0).initialised = s0.initialised ∧
+      ∀ m2 g2, ((List.range n).foldl (runModelGen run g i) s0).gens m2 g2 =
+        if g2 = i ∧ m2 < n then some (ranGen run g s0 m2 i) else s0.gens m2 g2 := by
+  intro n
+  induction n with
+  | zero => simp
+  | succ n ih =>
+    obtain ⟨h1, h2, h3, h4⟩ := ih
+    rw [range_foldl_succ, runModelGen_eq]
+    refine ⟨h1, h2, h3, ?_⟩
+    intro m2 g2
+    show upd2 _ n i _ m2 g2 = _
+    have hn : ((List.range n).foldl (runModelGen run g i) s0).gens n i = s0.gens n i := by
+      rw [h4 n i]; simp
+    have hr : ranGen run g ((List.range n).foldl (runModelGen run g i) s0) n i = ranGen run g s0 n i := by
+      unfold ranGen; rw [effGen_congr g hn]
+    unfold upd2
+    by_cases e : m2 = n ∧ g2 = i
+    · obtain ⟨e1, e2⟩ := e; subst e1; subst e2
+      simp [hr]
+    · simp only [e, if_false]
+      rw [h4 m2 g2]
+      by_cases e2 : g2 = i
+      · subst e2
+        have : m2 ≠ n := fun a => e ⟨a, rfl⟩
+        have a : (m2 < n + 1) ↔ (m2 < n) := by omega
+        simp [a]
+      · simp [e2]
+
+/-- links that are still to be processed do not reach the generation that runs now -/
+theorem partialInput_all {g : Graph α} (hv : ValidGraph g) (D : Done α) {pre post : List Link} {m i k : Nat}
+    (hsplit : g.links = pre ++ post) (hpost : ∀ l ∈ post, i ≤ l.srcGen) (hk : k < countOf g m i) :
+    partialInput g D g.links m (rowOf g m i k) = partialInput g D pre m (rowOf g m i k) := by
+  unfold partialInput
+  rw [hsplit, List.foldl_append]
+  apply foldl_stepIn_skip
+  intro l hl hc
+  have hlg : l ∈ g.links := by rw [hsplit]; exact List.mem_append_right _ hl
+  obtain ⟨a, _⟩ := link_dest_gen hv hlg hk hc.1 hc.2
+  have := (hv.link hlg).1
+  have := hpost l hl
+  omega
+
+theorem dinv_run (run : RunFn α) {g : Graph α} (hv : ValidGraph g) {p : Prog} {pre post : List Link} {s : SimState α}
+    {i : Nat} (hsplit : g.links = pre ++ post) (hpost : ∀ l ∈ post, p.linked ≤ l.srcGen)
+    (hI : DInv g (refDone run g g.genCount) p pre s) (hr : i = p.ran) (hl : p.linked = i) :
+    DInv g (refDone run g g.genCount) { p with ran := i + 1 } pre (runGeneration run g i s) := by
+  obtain ⟨h1, h2, h3, h4⟩ := runGeneration_spec run g i s g.models.length
+  unfold runGeneration
+  refine ⟨?_, ?_, ?_, ?_, ?_⟩
+  · rw [h1]; exact hI.cursor
+  · intro m gen hm hgen hnp
+    by_cases e : gen = i
+    · subst e
+      refine ⟨ranGen run g s m gen, by rw [h4 m gen]; simp [hm], ?_⟩
+      have old := hI.pend m gen hm (by omega)
+      unfold ranGen
+      by_cases hc : (effGen g s m gen).count = 0
+      · simp only [hc, if_true]
+        have hz : countOf g m gen = 0 := by rw [← old.count]; exact hc
+        exact ⟨old.count, fun h => by omega, fun k hk => by omega⟩
+      · simp only [hc, if_false]
+        unfold runGenData
+        simp only [hc, if_false]
+        refine ⟨old.count, fun _ => rfl, ?_⟩
+        intro k hk
+        obtain ⟨o1, o2, o3⟩ := old.vals k hk
+        have fx := ref_fixed run g hv hm hk
+        have hin : (effGen g s m gen).inputs k = nodeInput g (refDone run g g.genCount) m (rowOf g m gen k) := by
+          rw [o1, nodeInput_eq]
+          exact (partialInput_all hv _ hsplit (fun l hl' => by have := hpost l hl'; omega) hk).symm
+        have hrow : refDone run g g.genCount m (rowOf g m gen k) =
+            ⟨(effGen g s m gen).inputs k,
+              run (g.model m).name ((effGen g s m gen).params k) ((effGen g s m gen).inputs k) ((effGen g s m gen).states k)⟩ := by
+          rw [fx]; unfold runNodeAt; rw [hin, o2, o3, ← hin]
+        simp only []
+        rw [hrow]
+        exact ⟨rfl, rfl, rfl, rfl⟩
+    · have hne : ¬ (gen = i ∧ m < g.models.length) := fun a => e a.1
+      obtain ⟨d, hd, fd⟩ := hI.fin m gen hm (by show gen < p.ran; have : gen < i + 1 := hgen; omega) hnp
+      exact ⟨d, by rw [h4 m gen]; simp [e]; exact hd, fd⟩
+  · intro m gen hm hgen
+    have hgen' : i + 1 ≤ gen := hgen
+    have hne : ¬ (gen = i ∧ m < g.models.length) := by omega
+    have : effGen g ((List.range g.models.length).foldl (runModelGen run g i) s) m gen = effGen g s m gen := by
+      apply effGen_congr; rw [h4 m gen]; simp [hne]
+    rw [this]
+    exact hI.pend m gen hm (by omega)
+  · intro m gen k hm hk
+    rw [h2]; exact hI.file m gen k hm hk
+  · intro m hm
+    rw [h3]; exact hI.init m hm
+
+end OW.Sim
+
+namespace OW.Sim
+variable {α : Type} [Num α]
+
+/-! ### `writeGeneration`, `PurgeGeneration` -/
+
+theorem ensure_of_some (g : Graph α) {s : SimState α} {m gen : Nat} {d : GenData α} (h : s.gens m gen = some d) :
+    ensure g s m gen = s := by unfold ensure; rw [h]
+
+theorem writeData_final {g : Graph α} {D : Done α} {m k : Nat} {s : SimState α} {d : GenData α}
+    (h : s.gens m k = some d) (fd : FinalData g D m k d) :
+    writeData g k s m =
+      if countOf g m k = 0 then s
+      else { s with
+        initialised := upd s.initialised m true
+        file := fun m' r =>
+          if m' = m ∧ startOf (g.model m).batches k ≤ r ∧ r < startOf (g.model m).batches k + countOf g m k then
+            some (rowOut g D m r)
+          else s.file m' r } := by
+  unfold writeData
+  simp only [getGeneration_eq, ensure_of_some g h, effGen_of_some h, fd.count]
+  by_cases hc : countOf g m k = 0
+  · simp only [hc, if_true]
+  · simp only [hc, if_false]
+    have hr : d.ran = true := fd.ran (by omega)
+    simp only [hr, Bool.not_true, Bool.and_false, Bool.false_eq_true, if_false]
+    congr 1
+    funext m' r
+    by_cases hin : m' = m ∧ startOf (g.model m).batches k ≤ r ∧ r < startOf (g.model m).batches k + countOf g m k
+    · simp only [hin, and_self, if_true]
+      obtain ⟨_, h1, h2⟩ := hin
+      have hj : r - startOf (g.model m).batches k < countOf g m k := by omega
+      obtain ⟨v1, v2, v3, v4⟩ := fd.vals _ hj
+      have hrow : rowOf g m k (r - startOf (g.model m).batches k) = r := by unfold rowOf; omega
+      rw [hrow] at v1 v2 v3 v4
+      rw [v1, v2, v3, v4]
+      rfl
+    · simp only [hin, if_false]
+
+theorem writeGeneration_spec {g : Graph α} {D : Done α} {k : Nat} (s0 : SimState α) :
+    ∀ n, (∀ m, m < n → ∃ d, s0.gens m k = some d ∧ FinalData g D m k d) →
+      ((List.range n).foldl (writeData g k) s0).gens = s0.gens ∧
+      ((List.range n).foldl (writeData g k) s0).nextLink = s0.nextLink ∧
+      (∀ m, ((List.range n).foldl (writeData g k) s0).initialised m = true ↔
+        (s0.initialised m = true ∨ (m < n ∧ 0 < countOf g m k))) ∧
+      (∀ m r, ((List.range n).foldl (writeData g k) s0).file m r =
+        if m < n ∧ startOf (g.model m).batches k ≤ r ∧ r < startOf (g.model m).batches k + countOf g m k then
+          some (rowOut g D m r)
+        else s0.file m r) := by
+  intro n
+  induction n with
+  | zero => intro _; simp
+  | succ n ih =>
+    intro hall
+    obtain ⟨h1, h2, h3, h4⟩ := ih (fun m hm => hall m (by omega))
+    obtain ⟨d, hd, fd⟩ := hall n (by omega)
+    have hd' : ((List.range n).foldl (writeData g k) s0).gens n k = some d := by rw [h1]; exact hd
+    rw [range_foldl_succ, writeData_final hd' fd]
+    by_cases hc : countOf g n k = 0
+    · simp only [hc, if_true]
+      refine ⟨h1, h2, ?_, ?_⟩
+      · intro m
+        rw [h3 m]
+        constructor
+        · rintro (a | ⟨a, b⟩)
+          · exact Or.inl a
+          · exact Or.inr ⟨by omega, b⟩
+        · rintro (a | ⟨a, b⟩)
+          · exact Or.inl a
+          · have : m ≠ n := by intro e; subst e; omega
+            exact Or.inr ⟨by omega, b⟩
+      · intro m r
+        rw [h4 m r]
+        by_cases e : m = n
+        · subst e
+          have a : ¬ (m < m ∧ startOf (g.model m).batches k ≤ r ∧ r < startOf (g.model m).batches k + countOf g m k) := by omega
+          have b : ¬ (m < m + 1 ∧ startOf (g.model m).batches k ≤ r ∧ r < startOf (g.model m).batches k + countOf g m k) := by omega
+          simp only [a, b, if_false]
+        · have a : m < n + 1 ↔ m < n := by omega
+          simp only [a]
+    · simp only [hc, if_false]
+      refine ⟨h1, h2, ?_, ?_⟩
+      · intro m
+        show upd _ n true m = true ↔ _
+        by_cases e : m = n
+        · subst e
+          simp only [upd, if_true, true_iff]
+          exact Or.inr ⟨by omega, by omega⟩
+        · simp only [upd, e, if_false]
+          rw [h3 m]
+          have a : m < n + 1 ↔ m < n := by omega
+          simp only [a]
+      · intro m r
+        show (if m = n ∧ _ then _ else _) = _
+        by_cases e : m = n
+        · subst e
+          by_cases hin : startOf (g.model m).batches k ≤ r ∧ r < startOf (g.model m).batches k + countOf g m k
+          · simp [hin]
+          · have c : ¬ (m < m ∧ startOf (g.model m).batches k ≤ r ∧ r < startOf (g.model m).batches k + countOf g m k) := by omega
+            simp only [hin, and_false, if_false]
+            rw [h4 m r]; simp only [c, if_false]
+        · have a : ¬ (m = n ∧ startOf (g.model n).batches k ≤ r ∧ r < startOf (g.model n).batches k + countOf g n k) :=
+            fun x => e x.1
+          simp only [a, if_false]
+          rw [h4 m r]
+          have b : m < n + 1 ↔ m < n := by omega
+          simp only [b]
+
+end OW.Sim
+
+namespace OW.Sim
+variable {α : Type} [Num α]
+
+theorem dinv_write {g : Graph α} (hv : ValidGraph g) {D : Done α} {p : Prog} {pre : List Link} {s : SimState α} {k : Nat}
+    (hI : DInv g D p pre s) (hk : k < p.ran) (hnp : p.purged k = false) :
+    DInv g D { p with written := upd p.written k true } pre (writeGeneration g k s) := by
+  have hall : ∀ m, m < g.models.length → ∃ d, s.gens m k = some d ∧ FinalData g D m k d :=
+    fun m hm => hI.fin m k hm hk hnp
+  obtain ⟨h1, h2, h3, h4⟩ := writeGeneration_spec (D := D) s g.models.length hall
+  unfold writeGeneration
+  refine ⟨?_, ?_, ?_, ?_, ?_⟩
+  · rw [h2]; exact hI.cursor
+  · intro m gen hm hgen hnpg
+    rw [h1]; exact hI.fin m gen hm hgen hnpg
+  · intro m gen hm hgen
+    have : effGen g ((List.range g.models.length).foldl (writeData g k) s) m gen = effGen g s m gen :=
+      effGen_congr g (by rw [h1])
+    rw [this]; exact hI.pend m gen hm hgen
+  · intro m gen j hm hj
+    rw [h4]
+    show _ = if upd p.written k true gen = true then _ else _
+    by_cases e : gen = k
+    · subst e
+      have : m < g.models.length ∧ startOf (g.model m).batches gen ≤ rowOf g m gen j ∧
+          rowOf g m gen j < startOf (g.model m).batches gen + countOf g m gen := by
+        refine ⟨hm, ?_, ?_⟩ <;> (unfold rowOf; omega)
+      simp [this, upd]
+    · have hin := inGen_rowOf hj
+      have hnot : ¬ inGen (g.model m).batches k (rowOf g m gen j) :=
+        not_inGen_of_other (hv.mono hm) (gen_lt_of_count (by omega)) hin e
+      have : ¬ (m < g.models.length ∧ startOf (g.model m).batches k ≤ rowOf g m gen j ∧
+          rowOf g m gen j < startOf (g.model m).batches k + countOf g m k) := by
+        intro hc
+        apply hnot
+        unfold inGen
+        have := hc.2.1; have := hc.2.2
+        unfold countOf at *
+        omega
+      simp only [this, if_false, upd, e]
+      exact hI.file m gen j hm hj
+  · intro m hm
+    rw [h3 m, hI.init m hm]
+    show _ ↔ ∃ gen, upd p.written k true gen = true ∧ 0 < countOf g m gen
+    constructor
+    · rintro (⟨gen, a, b⟩ | ⟨_, b⟩)
+      · refine ⟨gen, ?_, b⟩
+        by_cases e : gen = k <;> simp [upd, e, a]
+      · exact ⟨k, by simp [upd], b⟩
+    · rintro ⟨gen, a, b⟩
+      by_cases e : gen = k
+      · subst e; exact Or.inr ⟨hm, b⟩
+      · exact Or.inl ⟨gen, by simpa [upd, e] using a, b⟩
+
+theorem dinv_purge {g : Graph α} {D : Done α} {p : Prog} {pre : List Link} {s : SimState α} {k : Nat}
+    (hI : DInv g D p pre s) (hk : k < p.ran) :
+    DInv g D { p with purged := upd p.purged k true } pre (purgeGeneration g k s) := by
+  refine ⟨hI.cursor, ?_, ?_, hI.file, hI.init⟩
+  · intro m gen hm hgen hnpg
+    have e : gen ≠ k := by
+      intro e; subst e
+      have : upd p.purged gen true gen = false := hnpg
+      simp [upd] at this
+    have hold : p.purged gen = false := by
+      have : upd p.purged k true gen = false := hnpg
+      simpa [upd, e] using this
+    obtain ⟨d, hd, fd⟩ := hI.fin m gen hm hgen hold
+    refine ⟨d, ?_, fd⟩
+    show (if gen = k ∧ m < g.models.length then none else s.gens m gen) = some d
+    simp [e, hd]
+  · intro m gen hm hgen
+    have hgen' : p.ran ≤ gen := hgen
+    have e : ¬ (gen = k ∧ m < g.models.length) := by omega
+    have : effGen g (purgeGeneration g k s) m gen = effGen g s m gen := by
+      apply effGen_congr
+      show (if gen = k ∧ m < g.models.length then none else s.gens m gen) = s.gens m gen
+      simp [e]
+    rw [this]
+    exact hI.pend m gen hm hgen
+
+/-- everything the implementation-shaped state satisfies after a protocol-respecting prefix of a schedule -/
+structure SInv (run : RunFn α) (g : Graph α) (p : Prog) (s : SimState α) : Prop where
+  pinv : PInv g.genCount p
+  ex : ∃ pre post, g.links = pre ++ post ∧ (∀ l ∈ pre, l.srcGen < p.linked) ∧ (∀ l ∈ post, p.linked ≤ l.srcGen) ∧
+    DInv g (refDone run g g.genCount) p pre s
+
+theorem sinv_init (run : RunFn α) (g : Graph α) : SInv run g Prog.init initState :=
+  ⟨pinv_init _, ⟨[], g.links, rfl, fun l h => by simp at h, fun l _ => Nat.zero_le _, dinv_init g _⟩⟩
+
+theorem sinv_step (run : RunFn α) {g : Graph α} (hv : ValidGraph g) {p p' : Prog} {s : SimState α} {a : Act}
+    (h : SInv run g p s) (hs : progStep g.genCount p a = some p') : SInv run g p' (exec run g s a) := by
+  have hp' := pinv_step h.pinv hs
+  obtain ⟨pre, post, hsplit, hpre, hpost, hI⟩ := h.ex
+  cases a with
+  | run i =>
+    simp only [progStep] at hs
+    split at hs
+    · rename_i hc; cases hs
+      obtain ⟨h1, h2, h3⟩ := hc
+      exact ⟨hp', pre, post, hsplit, hpre, hpost, dinv_run run hv hsplit hpost hI h1 h2⟩
+    · cases hs
+  | links i =>
+    simp only [progStep] at hs
+    split at hs
+    · rename_i hc; cases hs
+      obtain ⟨h1, h2⟩ := hc
+      have hdrop : g.links.drop s.nextLink = post := by rw [hI.cursor, hsplit]; exact drop_length_append pre post
+      have hsorted : SortedLinks post := sorted_append_right pre post (by rw [← hsplit]; exact hv.sorted)
+      obtain ⟨pre', post', hsplit', hI', hpre', hpost'⟩ :=
+        dinv_processLinksFrom hv h.pinv h1 h2 post pre s hsplit hI
+          (fun l hl => by have := hpre l hl; omega) (fun l hl => by have := hpost l hl; omega) hsorted
+      refine ⟨hp', pre', post', hsplit', hpre', hpost', ?_⟩
+      show DInv g _ { p with linked := i + 1 } pre' (processLinks g i s)
+      unfold processLinks
+      rw [hdrop]
+      exact ⟨hI'.cursor, hI'.fin, hI'.pend, hI'.file, hI'.init⟩
+    · cases hs
+  | write k =>
+    simp only [progStep] at hs
+    split at hs
+    · rename_i hc; cases hs
+      obtain ⟨h1, _, h3⟩ := hc
+      exact ⟨hp', pre, post, hsplit, hpre, hpost, dinv_write hv hI h1 h3⟩
+    · cases hs
+  | purge k =>
+    simp only [progStep] at hs
+    split at hs
+    · rename_i hc; cases hs
+      obtain ⟨h1, h2⟩ := hc
+      have := h.pinv.lr
+      exact ⟨hp', pre, post, hsplit, hpre, hpost, dinv_purge hI (by omega)⟩
+    · cases hs
+
+theorem sinv_run (run : RunFn α) {g : Graph α} (hv : ValidGraph g) :
+    ∀ (acts : List Act) (p p' : Prog) (s : SimState α), SInv run g p s → progRun g.genCount p acts = some p' →
+      SInv run g p' (acts.foldl (exec run g) s) := by
+  intro acts
+  induction acts with
+  | nil => intro p p' s h hr; simp only [progRun] at hr; cases hr; exact h
+  | cons a rest ih =>
+    intro p p' s h hr
+    simp only [progRun] at hr
+    split at hr
+    · rename_i p1 hs
+      exact ih p1 p' _ (sinv_step run hv h hs) hr
+    · cases hr
+
+theorem total_pos_iff {b : List Nat} (hlen : 1 ≤ b.length) (hm : MonoBatches b) :
+    0 < totalOf b ↔ ∃ gen, gen < b.length ∧ 0 < stopOf b gen - startOf b gen := by
+  constructor
+  · intro h
+    obtain ⟨gen, hg, hin⟩ := inGen_cover hlen h
+    exact ⟨gen, hg, by have := hin.1; have := hin.2; omega⟩
+  · rintro ⟨gen, hg, hc⟩
+    have := stop_le_total hm hg
+    omega
+
+/-- **T1, general form**: for every valid graph, every kernel function and every complete schedule of main-loop and
+writer actions that respects the protocol, the output file of the implementation-shaped semantics is the reference
+result -/
+theorem owsimSched_eq_ref (run : RunFn α) {g : Graph α} (hv : ValidGraph g) {acts : List Act}
+    (hsc : SafeComplete g.genCount acts) : owsimSched run g acts = refSem run g := by
+  obtain ⟨p, hrun, hran, hlinked, hwritten⟩ := hsc
+  have hS := sinv_run run hv acts Prog.init p initState (sinv_init run g) hrun
+  obtain ⟨pre, post, _, _, _, hI⟩ := hS.ex
+  unfold owsimSched resultOf refSem execAll
+  apply List.map_congr_left
+  intro m hm
+  have hm' : m < g.models.length := List.mem_range.mp hm
+  have hlen := hv.len hm'
+  have hmono := hv.mono hm'
+  have hG := hv.genPos
+  unfold fileModelOut refModelOut
+  have hcreated : (acts.foldl (exec run g) initState).initialised m = decide (0 < totalOf (g.model m).batches) := by
+    have hi := hI.init m hm'
+    have ht := total_pos_iff (by omega) hmono
+    by_cases hpos : 0 < totalOf (g.model m).batches
+    · obtain ⟨gen, hg, hc⟩ := ht.mp hpos
+      have : (acts.foldl (exec run g) initState).initialised m = true :=
+        hi.mpr ⟨gen, hwritten gen (by omega), hc⟩
+      simp [this, hpos]
+    · have : ¬ ((acts.foldl (exec run g) initState).initialised m = true) := by
+        intro a
+        obtain ⟨gen, hw, hc⟩ := hi.mp a
+        have hgr := hS.pinv.wr gen hw
+        exact hpos (ht.mpr ⟨gen, by omega, hc⟩)
+      simp only [hpos, decide_false]
+      cases h : (acts.foldl (exec run g) initState).initialised m with
+      | false => rfl
+      | true => exact absurd h this
+  have hrows : (List.range (totalOf (g.model m).batches)).map (fun r => (acts.foldl (exec run g) initState).file m r) =
+      (List.range (totalOf (g.model m).batches)).map (fun r =>
+        some (mkRow g (g.model m) (refDone run g g.genCount m r).inputs (refDone run g g.genCount m r).res)) := by
+    apply List.map_congr_left
+    intro r hr
+    have hr' : r < totalOf (g.model m).batches := List.mem_range.mp hr
+    obtain ⟨gen, hg, hin⟩ := inGen_cover (by omega) hr'
+    have hj : r - startOf (g.model m).batches gen < countOf g m gen := by
+      unfold countOf; have := hin.1; have := hin.2; omega
+    have hrow : rowOf g m gen (r - startOf (g.model m).batches gen) = r := by
+      unfold rowOf; have := hin.1; omega
+    have := hI.file m gen _ hm' hj
+    rw [hrow] at this
+    rw [this, hwritten gen (by omega)]
+    rfl
+  rw [hcreated, hrows]
+
+end OW.Sim
+
+namespace OW.Sim
+
+/-! ### the two concrete schedules respect the protocol -/
+
+theorem progRun_append (G : Nat) : ∀ (a b : List Act) (p : Prog),
+    progRun G p (a ++ b) = match progRun G p a with
+      | some p' => progRun G p' b
+      | none => none := by
+  intro a
+  induction a with
+  | nil => intro b p; rfl
+  | cons x rest ih =>
+    intro b p
+    simp only [List.cons_append, progRun]
+    cases h : progStep G p x with
+    | none => rfl
+    | some p1 => exact ih b p1
+
+theorem earlySchedule_succ (n : Nat) :
+    earlySchedule (n + 1) = earlySchedule n ++
+      ([Act.run n] ++ (if n = 0 then [] else [Act.purge (n - 1)]) ++ [Act.write n, Act.links n]) := by
+  unfold earlySchedule
+  rw [List.range_succ, List.flatMap_append]
+  simp
+
+theorem earlySchedule_prog (G : Nat) : ∀ n, n ≤ G →
+    ∃ p, progRun G Prog.init (earlySchedule n) = some p ∧ p.ran = n ∧ p.linked = n ∧
+      (∀ k, p.written k = decide (k < n)) ∧ (∀ k, p.purged k = decide (k + 1 < n)) := by
+  intro n
+  induction n with
+  | zero =>
+    intro _
+    exact ⟨Prog.init, rfl, rfl, rfl, fun k => by simp [Prog.init], fun k => by simp [Prog.init]⟩
+  | succ n ih =>
+    intro hn
+    obtain ⟨p, hp, h1, h2, h3, h4⟩ := ih (by omega)
+    rw [earlySchedule_succ, progRun_append, hp]
+    by_cases h0 : n = 0
+    · subst h0
+      have e1 : progStep G p (Act.run 0) = some { p with ran := 0 + 1 } := by
+        simp only [progStep]; rw [if_pos ⟨h1.symm, h2, by omega⟩]
+      have e2 : progStep G { p with ran := 0 + 1 } (Act.write 0) =
+          some { p with ran := 0 + 1, written := upd p.written 0 true } := by
+        simp only [progStep]
+        rw [if_pos ⟨by simp, by rw [h3]; simp, by rw [h4]; simp⟩]
+      have e3 : progStep G { p with ran := 0 + 1, written := upd p.written 0 true } (Act.links 0) =
+          some { p with ran := 0 + 1, written := upd p.written 0 true, linked := 0 + 1 } := by
+        simp only [progStep]; rw [if_pos ⟨trivial, h2⟩]
+      refine ⟨{ p with ran := 0 + 1, written := upd p.written 0 true, linked := 0 + 1 }, ?_, rfl, rfl, ?_, ?_⟩
+      · simp only [if_true, List.append_nil, List.singleton_append, progRun, e1, e2, e3]
+      · intro k
+        show upd p.written 0 true k = decide (k < 0 + 1)
+        by_cases e : k = 0
+        · simp [upd, e]
+        · simp only [upd, e, if_false]; rw [h3]; have : ¬ k < 0 + 1 := by omega
+          simp [this]
+      · intro k
+        show p.purged k = decide (k + 1 < 0 + 1)
+        rw [h4]; simp
+    · have e1 : progStep G p (Act.run n) = some { p with ran := n + 1 } := by
+        simp only [progStep]; rw [if_pos ⟨h1.symm, h2, by omega⟩]
+      have e2 : progStep G { p with ran := n + 1 } (Act.purge (n - 1)) =
+          some { p with ran := n + 1, purged := upd p.purged (n - 1) true } := by
+        simp only [progStep]
+        rw [if_pos ⟨by rw [h3]; simp; omega, by show n - 1 < p.linked; omega⟩]
+      have e3 : progStep G { p with ran := n + 1, purged := upd p.purged (n - 1) true } (Act.write n) =
+          some { p with ran := n + 1, purged := upd p.purged (n - 1) true, written := upd p.written n true } := by
+        simp only [progStep]
+        have hne : n ≠ n - 1 := by omega
+        rw [if_pos ⟨by simp, by rw [h3]; simp, by simp only [upd, hne, if_false]; rw [h4]; simp⟩]
+      have e4 : progStep G { p with ran := n + 1, purged := upd p.purged (n - 1) true, written := upd p.written n true }
+          (Act.links n) =
+          some { p with ran := n + 1, purged := upd p.purged (n - 1) true, written := upd p.written n true,
+                        linked := n + 1 } := by
+        simp only [progStep]; rw [if_pos ⟨trivial, h2⟩]
+      refine ⟨{ p with ran := n + 1, purged := upd p.purged (n - 1) true, written := upd p.written n true,
+                       linked := n + 1 }, ?_, rfl, rfl, ?_, ?_⟩
+      · simp only [h0, if_false, List.cons_append, List.nil_append, progRun, e1, e2, e3, e4]
+      · intro k
+        show upd p.written n true k = decide (k < n + 1)
+        by_cases e : k = n
+        · simp [upd, e]
+        · simp only [upd, e, if_false]; rw [h3]
+          have : k < n ↔ k < n + 1 := by omega
+          simp [this]
+      · intro k
+        show upd p.purged (n - 1) true k = decide (k + 1 < n + 1)
+        by_cases e : k = n - 1
+        · have : k + 1 < n + 1 := by omega
+          simp [upd, e]; omega
+        · simp only [upd, e, if_false]; rw [h4]
+          have : k + 1 < n ↔ k + 1 < n + 1 := by omega
+          simp [this]
+
+theorem earlySchedule_safe (G : Nat) : SafeComplete G (earlySchedule G) := by
+  obtain ⟨p, hp, h1, h2, h3, _⟩ := earlySchedule_prog G G (Nat.le_refl _)
+  exact ⟨p, hp, h1, h2, fun k hk => by rw [h3]; simp [hk]⟩
 
 end OW.Sim
